@@ -116,6 +116,7 @@ func runWriterHistory(cs *drv.Case, ops []wOp, o writerOpts) bool {
 		}
 		return true
 	}
+	var everything []byte     // bytes writer: all bytes written so far (flushed)
 	var expectAll []byte      // everything that should have reached the sink so far (successful flushes)
 	var pending []interface{} // *region or []byte payload copies, in call order
 	var live []*region
@@ -295,6 +296,7 @@ func runWriterHistory(cs *drv.Case, ops []wOp, o writerOpts) bool {
 					return true
 				}
 				if !flushedOnce {
+					everything = append(everything, want...)
 					full := append(append([]byte(nil), initCopy...), want...)
 					if !bytes.Equal(target, full) {
 						fail("bytes-writer-target", i, "after Flush the target holds %d bytes, want initial %d + written %d (first diff at %d)", len(target), len(initCopy), len(want), firstDiff(target, full))
@@ -319,7 +321,10 @@ func runWriterHistory(cs *drv.Case, ops []wOp, o writerOpts) bool {
 				}
 				if flushedOnce && len(want) > 0 {
 					// a later Flush of the same bytes writer publishes exactly what was written since the previous one
-					if !bytes.Equal(target, want) {
+					// two readings of the statement are accepted: the target holds what was written since the
+					// previous Flush (each Flush is one delivery), or everything written so far after the initial contents
+					everything = append(everything, want...)
+					if !bytes.Equal(target, want) && !bytes.Equal(target, append(append([]byte(nil), initCopy...), everything...)) {
 						fail("bytes-writer-reflush", i, "after a later Flush the target holds %d bytes, want the %d bytes written since the previous Flush (first diff at %d)", len(target), len(want), firstDiff(target, want))
 						return true
 					}
